@@ -181,6 +181,8 @@ func (tp *TableParser) ParseTable(tbl tableXML) ParsedTable {
 		parsed.Rows = append(parsed.Rows, parsedRow)
 	}
 
+	limitTableGrid(&parsed)
+
 	// Process row spans to mark covered cells
 	tp.processRowSpans(&parsed)
 
@@ -217,6 +219,41 @@ func (tp *TableParser) parseTableColumns(cols []tableColXML) []float64 {
 	}
 
 	return widths
+}
+
+// maxTableGridCells is the largest grid (rows x columns, the columns being the
+// widest row counted in spanned columns) on which spans are honoured. Each span is
+// limited on its own, but the grid is their product with the number of rows and of
+// cells: ten cells spanning 1024 columns in one row followed by 2000 empty rows - a
+// 600-byte document - made a grid of twenty million cells (over 2 GiB in
+// Document(), more with row spans). Beyond the limit the spans are not believed
+// and every cell counts as one column and one row.
+const maxTableGridCells = 1 << 20
+
+// limitTableGrid drops the spans of a table whose grid would exceed maxTableGridCells.
+func limitTableGrid(table *ParsedTable) {
+	cols, spans := 0, false
+	for _, row := range table.Rows {
+		count := 0
+		for _, cell := range row.Cells {
+			count += cell.ColSpan
+			if cell.ColSpan > 1 || cell.RowSpan > 1 {
+				spans = true
+			}
+		}
+		if count > cols {
+			cols = count
+		}
+	}
+	if !spans || cols == 0 || len(table.Rows) <= maxTableGridCells/cols {
+		return
+	}
+	for i := range table.Rows {
+		for j := range table.Rows[i].Cells {
+			table.Rows[i].Cells[j].ColSpan = 1
+			table.Rows[i].Cells[j].RowSpan = 1
+		}
+	}
 }
 
 // maxCellSpan is the largest column/row span and column repetition accepted.
